@@ -95,7 +95,7 @@ def _run(chk, tier, model_ok):
     quick = tier == "quick"
     tm = {}
     t0 = time.time()
-    n_random = 10 if quick else 120
+    n_random = 16 if quick else 120
     n_base = 5 if quick else 12
     cases, dist = viewcorr.make_cases(chk, r, n_random, corpus_prop=PROP)
     pinned = []
